@@ -129,6 +129,62 @@ def len_dispatch(sc, body, subject_suffix):
     return None, None, None
 
 
+def check_week_runs(ctx, prog, sf):
+    """run-length encoding of the seven daily names of a week, wherever it is written (in schedules_from_bdl or in a private helper of the same module it calls):
+    a pair (id, count) starts at count 1, `count += 1` for a name equal to the run's name, the pair is pushed when the name changes; the name compared with
+    is re-bound to the day's name whenever a new run starts"""
+    from ..cfgq import same_module
+    from ..mir import callee_id
+    cands = [sf]
+    for b_, t_ in sf.body.calls():
+        cid = callee_id(t_)
+        if cid in prog.fns and prog.fns[cid].root == cid and same_module(prog.fns[cid].path, sf.path) and not prog.fns[cid].raw.get("pub") and prog.fns[cid] not in cands:
+            cands.append(prog.fns[cid])
+    found = []
+    for f_ in cands:
+        # updates written in this very function (updates() also follows private helpers: those are looked at as candidates of their own)
+        ups_ = [u for u in updates(Scope(prog, f_)) if prog.root_of(u["scope"].fn).id == f_.id]
+        inc = [u for u in ups_ if u["op"] == "+=" and u["dest"].endswith(".1")]
+        if inc:
+            found.append((f_, ups_, inc))
+    if len(found) != 1:
+        raise AnalysisError("schedules_from_bdl: the run-length encoding of a week's daily names (a `<pair>.1 += ..` update) was found in %d functions" % len(found))
+    f_, ups_, inc = found[0]
+    base = inc[0]["dest"][:-2]
+    runs = [u for u in ups_ if u["dest"] == base]
+    okruns = len(inc) == 1 and strip(inc[0]["term"])[0] == "k" and strip(inc[0]["term"])[1] == "1" and \
+        all(strip(u["term"])[0] == "agg" and len(strip(u["term"])[3]) == 2 and strip(strip(u["term"])[3][1])[0] == "k" and strip(strip(u["term"])[3][1])[1] == "1" for u in runs) and len(runs) == 2
+    if okruns:
+        ctx.ok("c17.calendar", "c17.calendar|weekly-runs", "7 daily names are run-length encoded: each name starts a run of 1, equal consecutive names add 1 (runs sum to 7)", f_.loc(inc[0]["line"]))
+    else:
+        ctx.violation("c17.calendar", "c17.calendar|weekly-runs", "run-length encoding of the week is not `start at 1, += 1 per repeated name` (increment %s; runs start as %s)"
+                      % ([show(strip(u["term"]))[:20] for u in inc], [show(strip(u["term"]))[:40] for u in runs]), f_.loc(inc[0]["line"]))
+    sb = f_.body
+    seb = ExprBuilder(sb)
+    cmp_sites = []
+
+    def is_day_elem(x):
+        return x[0] == "proj" and strip(x[1])[0] == "call" and short_callee(strip(x[1])[1]) == "next" and x[2] and x[2][0] == "@Some"
+    for b_, t_ in sb.calls():
+        if short_callee(callee_name(t_) or "") in ("eq", "ne") and len(t_["args"]) == 2:
+            a0, a1 = strip(seb.operand(t_["args"][0])), strip(seb.operand(t_["args"][1]))
+            for elem, other in ((a0, a1), (a1, a0)):
+                if is_day_elem(elem) and not is_day_elem(other):
+                    cmp_sites.append((b_, elem, other, t_.get("ln")))
+    if len(cmp_sites) != 1:
+        raise AnalysisError("%s: the comparison of consecutive day names of a week was not found (%d candidates)" % (f_.path.split("::")[-1], len(cmp_sites)))
+    b_, elem, other, ln_ = cmp_sites[0]
+    defs_ = sb.defs().get(other[1], []) if other[0] == "var" else []
+    rebinds = [d for d in defs_ if d[0] == "st" and strip(seb.rvalue(d[3]["rv"])) == elem]
+    oname = other[2] if other[0] == "var" else show(other)[:60]
+    if rebinds:
+        ctx.ok("c17.calendar", "c17.calendar|weekly-runs|compared-name", "the name a day is compared with (`%s`) is re-bound to the day's name whenever a new run starts" % oname, f_.loc(ln_))
+    else:
+        ctx.violation("c17.calendar", "c17.calendar|weekly-runs|compared-name", "every day of the week is compared with `%s`, which is never re-bound inside the loop (it stays the "
+                      "week's first name): after the first change of name a day equal to the *first* day extends the current run instead of starting a new one, so a week "
+                      "A B A A A A A becomes A B B B B B B" % oname, f_.loc(ln_))
+
+
 def run(ctx):
     prog = ctx.prog
     md = const_array_numbers(prog, "climate::MONTH_DAYS")
@@ -199,47 +255,7 @@ def run(ctx):
         ctx.ok("c17.calendar", "c17.calendar|weekly-single", "a weekly schedule with one daily schedule expands to (id, 7)", sf.loc())
     else:
         ctx.violation("c17.calendar", "c17.calendar|weekly-single", "single-day weekly schedule does not expand to (id, 7)", sf.loc())
-    # runs: current_day_sch = (id, 1); .1 += 1 ; pushed
-    runs = [u for u in ups if u["dest"] == "current_day_sch"]
-    inc = [u for u in ups if u["dest"] == "current_day_sch.1" and u["op"] == "+="]
-    okruns = len(inc) == 1 and strip(inc[0]["term"])[0] == "k" and strip(inc[0]["term"])[1] == "1" and \
-        all(strip(u["term"])[0] == "agg" and strip(strip(u["term"])[3][1])[0] == "k" and strip(strip(u["term"])[3][1])[1] == "1" for u in runs) and len(runs) == 2
-    if okruns:
-        ctx.ok("c17.calendar", "c17.calendar|weekly-runs", "7 daily names are run-length encoded: each name starts a run of 1, equal consecutive names add 1 (runs sum to 7)", sf.loc())
-    else:
-        ctx.violation("c17.calendar", "c17.calendar|weekly-runs", "run-length encoding of the week is not `start at 1, += 1 per repeated name`", sf.loc())
-    # ... and a run ends where the name differs from the name the *current run* started with: the name compared with is re-bound to the loop's name whenever a
-    # new run starts, and the new run's id is looked up from that same name
-    sb = sf.body
-    seb = ExprBuilder(sb)
-    cmp_sites = []
-    for b_, t_ in sb.calls():
-        if short_callee(callee_name(t_) or "") in ("eq", "ne") and len(t_["args"]) == 2:
-            a0, a1 = strip(seb.operand(t_["args"][0])), strip(seb.operand(t_["args"][1]))
-            for elem, other in ((a0, a1), (a1, a0)):
-                def is_day_elem(x):
-                    return x[0] == "proj" and strip(x[1])[0] == "call" and short_callee(strip(x[1])[1]) == "next" and "@Week" in show(x) and ".days" in show(x)
-                if is_day_elem(elem) and not is_day_elem(other):
-                    cmp_sites.append((b_, elem, other, t_.get("ln")))
-    if len(cmp_sites) == 1:
-        b_, elem, other, ln_ = cmp_sites[0]
-        defs_ = sb.defs().get(other[1], []) if other[0] == "var" else []
-        rebinds = [d for d in defs_ if d[0] == "st" and strip(seb.rvalue(d[3]["rv"])) == elem]
-        oname = other[2] if other[0] == "var" else show(other)[:60]
-        # the id of a new run: schedule_day_id(<the loop's name>)
-        newids = []
-        for u in runs:
-            if strip(u["term"])[0] == "agg":
-                idn = strip(strip(u["term"])[3][0])
-                newids.append(show(idn))
-        if rebinds:
-            ctx.ok("c17.calendar", "c17.calendar|weekly-runs|compared-name", "the name a day is compared with (`%s`) is re-bound to the day's name whenever a new run starts" % oname, sf.loc(ln_))
-        else:
-            ctx.violation("c17.calendar", "c17.calendar|weekly-runs|compared-name", "every day of the week is compared with `%s`, which is never re-bound inside the loop (it stays the "
-                          "week's first name): after the first change of name a day equal to the *first* day extends the current run instead of starting a new one, so a week "
-                          "A B A A A A A becomes A B B B B B B" % oname, sf.loc(ln_))
-    else:
-        raise AnalysisError("schedules_from_bdl: the comparison of consecutive day names of a week was not found (%d candidates)" % len(cmp_sites))
+    check_week_runs(ctx, prog, sf)
     # period lengths
     dc = None
     for sc in root.all_scopes():
